@@ -150,6 +150,18 @@ impl Scenario for CacheBankHistory {
                 entries.push(a);
             }
         }
+        // every other banked case: an entry whose first block remaps the bank it is running from (LD A,v; LD (0x2100),A) - the
+        // instruction behind the write is the one the NEWLY mapped bank holds at that address (different in every bank)
+        let remap_at: Option<u16> = if cart_type != 0 && rng.chance(1, 2) {
+            let mut a = 0x4040 + (rng.below(0x3e00) as u16 & !0x3f);
+            while entries.contains(&a) {
+                a = 0x4040 + (rng.below(0x3e00) as u16 & !0x3f);
+            }
+            entries.push(a);
+            Some(a)
+        } else {
+            None
+        };
         // bank-0 fixed code
         for v in (0x00u16..0x40).step_by(8) {
             case.blobs.insert(patch_key(v as usize), vec![0xc9]);
@@ -175,6 +187,14 @@ impl Scenario for CacheBankHistory {
         let exact_bank_entry = rng.chance(1, 2);
         for b in 1..banks {
             for (e, &a) in entries.iter().enumerate() {
+                if Some(a) == remap_at {
+                    let to = 1 + (mix(lseed, b as u64, 0x777) % (banks as u64 - 1)) as u8;
+                    let pre = (mix(lseed, 0, 0x778) % 3) as usize; // same in every bank: the continuation must line up
+                    let mut code = vec![0x04u8; pre];
+                    code.extend([0x3e, to, 0xea, 0x00, 0x21, 0x3e, (mix(lseed, b as u64, 0x779) & 0xff) as u8 | 1, 0xea, 0xe0, 0xc0, 0x34, 0xc3, HUB as u8, (HUB >> 8) as u8]);
+                    case.blobs.insert(patch_key(rom_offset(a as usize, b)), code);
+                    continue;
+                }
                 let code = entry_code(lseed, b, e, &entries, false);
                 case.blobs.insert(patch_key(rom_offset(a as usize, b)), code);
             }
@@ -221,7 +241,7 @@ impl Scenario for CacheBankHistory {
                         let mut v = if rng.chance(1, 5) { 1 } else if rng.chance(1, 2) { rng.below(banks as u64) as u8 } else { rng.pick(&interesting) };
                         // a value that maps bank 0 (trampolines, which write bank registers) into the switchable window leads to the
                         // known-finding class; keep it rare so that it does not drown the rest of the search
-                        if v as usize % banks == 0 && v != 0 && !rng.chance(1, 16) {
+                        if v as usize % banks == 0 && v != 0 && !rng.chance(1, 3) {
                             v = 1 + rng.below(banks as u64 - 1) as u8;
                         }
                         (0x2000 + rng.below(0x2000) as u16, v)
@@ -409,7 +429,7 @@ impl Scenario for CacheBankHistory {
                             ctx.cov.hit(&format!("all_panicked.{}", panic_msg(results[2].as_ref().err().unwrap())));
                             break 'ops;
                         }
-                        // a block in the switchable window that remapped the bank it was running from (known-finding class)
+                        // a block in the switchable window that remapped the bank it was running from (probe; the defect behind it is repaired)
                         let self_switch = running && pc >= 0x4000 && case.get("cart_type") != 0 && (reps[2].rom_bank() != pre_bank || bank_writes >= 2);
                         if self_switch {
                             ctx.cov.hit("probe.block_remapped_its_own_bank");
@@ -423,9 +443,7 @@ impl Scenario for CacheBankHistory {
                             let who: Vec<&str> = results.iter().zip(["W", "F", "I"]).filter(|(r, _)| r.is_err()).map(|(_, n)| n).collect();
                             let msg = results.iter().find_map(|r| r.as_ref().err()).unwrap().clone();
                             let exhausted = arena > 0 && results[2].is_ok() && (msg.contains("src/emitter") || msg.contains("src/cache"));
-                            let sig = if self_switch {
-                                "C03/block-in-switchable-bank-writes-bank-register".to_string()
-                            } else if exhausted { "C03/translation-arena-exhausted".to_string() } else { format!("C03/only-some-replicas-panicked/{}/{}", who.join("+"), panic_msg(&msg)) };
+                            let sig = if exhausted { "C03/translation-arena-exhausted".to_string() } else { format!("C03/only-some-replicas-panicked/{}/{}", who.join("+"), panic_msg(&msg)) };
                             out.push(Violation::new("C03", sig, format!("op {} step {} (pc {:#06x}, bank {}): replica(s) {} panicked: {}", opi, steps_done, pc, pre_bank, who.join("+"), msg)));
                             break 'ops;
                         }
@@ -500,7 +518,7 @@ impl Scenario for CacheBankHistory {
                         if let Some(field) = sw.diff_field(&si, &[]) {
                             out.push(Violation::new(
                                 "C03",
-                                if self_switch { "C03/block-in-switchable-bank-writes-bank-register".to_string() } else { format!("C03/diverged/warm-vs-interpreter/{}", field) },
+                                format!("C03/diverged/warm-vs-interpreter/{}", field),
                                 format!("op {} step {} (block at pc {:#06x}, ROM bank {}): warm-cache replica vs interpreter: {}", opi, steps_done, pc, pre_bank, sw.diff(&si, &[]).unwrap()),
                             ));
                             break 'ops;
@@ -508,7 +526,7 @@ impl Scenario for CacheBankHistory {
                         if let Some(field) = sf.diff_field(&si, &[]) {
                             out.push(Violation::new(
                                 "C03",
-                                if self_switch { "C03/block-in-switchable-bank-writes-bank-register".to_string() } else { format!("C03/diverged/flushed-vs-interpreter/{}", field) },
+                                format!("C03/diverged/flushed-vs-interpreter/{}", field),
                                 format!("op {} step {} (block at pc {:#06x}, ROM bank {}): cold-cache replica vs interpreter: {}", opi, steps_done, pc, pre_bank, sf.diff(&si, &[]).unwrap()),
                             ));
                             break 'ops;
